@@ -4,5 +4,5 @@ prop=$1; file=$2; expr=$3; shift 3
 cd /repo && sed -i "$expr" "$file" && git diff --stat | tail -1
 if [ -z "$(git diff --stat)" ]; then echo "MUTATION DID NOT APPLY"; exit 2; fi
 (cd /repo && GOFLAGS=-mod=mod GOPROXY=off go build ./... ) || { git -C /repo checkout -- .; echo "MUTANT DOES NOT BUILD"; exit 2; }
-cd /verif && ./check $prop --no-evidence "$@" 2>&1 | grep -E "VIOLATION|INCONCLUSIVE|CHECK-ERROR|tier=" | head -8
+cd /verif && ./check $prop --no-evidence "$@" 2>&1 | grep -E "VIOLATION|INCONCLUSIVE|CHECK-ERROR|tier=" | head -40
 git -C /repo checkout -- .
